@@ -169,6 +169,15 @@ validation on every call; what persists between two `new` is the class table (`W
 resolved class statement cached in a literal `new C` node (the same `W` entry). `live`: the objects created so
 far, most recent first. -/
 
+/-- what `newStep` presumes about the glue, regenerated from the source by the translator
+(`Generated.C07Access.instGlue`): `createInstanceFromClassStmt` tests `IsAbstractClassStmt` before anything else,
+and `ClassStatement.GetValue` runs `ValidateConcreteClassAbstractMethods`, tests its result and returns it as
+its first statement — on every call, not behind a memo -/
+structure Glue where
+  abstractTestFirst : Bool
+  validateEveryCall : Bool
+deriving DecidableEq, Repr
+
 def newStep (W : World) (live : List Name) (n : Name) : InstOut × List Name :=
   match instantiate W n with
   | .ok => (.ok, n :: live)
